@@ -202,6 +202,24 @@ func (ls *lockstep) step(i int, b Block) error {
 			}
 		}
 	}
+	if b.Stale > 0 {
+		sAdds, _ := mkLeavesSalt(900+i%50, first, b.Stale, func(int) bool { return true })
+		for _, in := range ls.insts {
+			if in.S != nil {
+				continue // a stump keeps no history: its caller goes back to the copy it kept
+			}
+			if err := in.Apply(sAdds, nil, u.Proof{}); err != nil {
+				return fmt.Errorf("before block %d: %s rejected a stale tip adding %d leaves: %v", i, in.Cfg, b.Stale, err)
+			}
+			in.ar.next()
+			if err := in.Acc().Undo(uint64(b.Stale), u.Proof{}, nil, in.ar.hashes(v.Roots)); err != nil {
+				return fmt.Errorf("before block %d: %s: Undo of a stale tip adding %d leaves failed: %v", i, in.Cfg, b.Stale, err)
+			}
+			if err := in.checkRoots(v); err != nil {
+				return fmt.Errorf("before block %d, after a stale tip adding %d leaves was applied and undone: %v", i, b.Stale, err)
+			}
+		}
+	}
 	for _, in := range ls.insts {
 		if err := in.Apply(adds, delH, proof); err != nil {
 			return fmt.Errorf("block %d: %s rejected a valid block: %v", i, in.Cfg, err)
